@@ -169,7 +169,9 @@ let run (op_full : string) (a : string array) : string =
        | Err _ -> "err Other " ^ hex text
        | Panic -> "panic")
   | "reparse_json_path" ->
-      (* parse, print, parse again; leaf=1 when the round-trip theorem (Props/C09) applies to the accepted path *)
+      (* parse, print, parse again; leaf=1 when the round-trip theorem (Props/C09: C09_negative_infinity_literal_round_trips, i.e.
+         C09_accepted_path_round_trips with the printer float_placeholder and the non-finite floats inf / -inf / NaN, which it
+         prints as the crate does; -inf is read back since the crate's fix e1187a7) applies to the accepted path *)
       (match parse_json_path (unhex a.(0)) with
        | Ok ps ->
            let second = (match parse_json_path (show_json_path float_placeholder ps) with
@@ -177,7 +179,7 @@ let run (op_full : string) (a : string array) : string =
            (* anyf=1: the path is in the class of the round-trip theorem once float literals are let in (PathImage: leaf_path okf with
               okf = everything); with leaf=0 this says "only the floats keep it out": the judge then requires parsed = reparsed of the
               implementation alone (the model prints a placeholder for floats, so its own second parse says nothing) *)
-           "ok " ^ show_paths ps ^ " " ^ second ^ (if leaf_path no_floats ps then " leaf=1" else " leaf=0")
+           "ok " ^ show_paths ps ^ " " ^ second ^ (if leaf_path nonfinite_floats ps then " leaf=1" else " leaf=0")
            ^ (if leaf_path (fun _ -> true) ps then " anyf=1" else " anyf=0")
        | Err e -> "err " ^ show_err e
        | Panic -> "panic")
